@@ -450,6 +450,11 @@ class Ctx:
             return 2
         for fid, what in sorted(self.kf_lines.items()):
             print("KNOWN-FINDING: property=%s %s: %s" % (self.pid, fid, what))
+        # every OPEN finding listed for this property gets its line, also when this tier's scripts did not run into it
+        for f in self.findings:
+            if f.get("status") == "open" and f["id"] not in self.kf_lines:
+                print("KNOWN-FINDING: property=%s %s: %s [listed; not reproduced by the scripts of this %s run]"
+                      % (self.pid, f["id"], f["what"], self.tier))
         for what, rp in self.violations[:20]:
             print("VIOLATION property=%s replay=%s" % (self.pid, rp))
             print("  ", what)
